@@ -60,7 +60,27 @@ def replay(case, ctx):
     run_spec_case(case, ctx)
 
 
-def _accept(t, is_map, what, sig):
+def _evicted(t, is_map):
+    """the same tree stored in a mini-ZODB connection with every node evicted (None when it has the shape of open
+    finding F16 and would not survive the commit): the checkers have to load what they look at"""
+    from vlib import minizodb as Z
+    if hasattr(t, '_firstbucket'):
+        try:
+            if walker.f16_pending(walker.walk(t, is_map, check=False)):
+                return None
+        except Exception:
+            return None
+    c = Z.Connection(Z.Storage())
+    try:
+        c.add(t)
+        c.commit()
+    except Exception:
+        return None
+    c.minimize()
+    return c
+
+
+def _accept(t, is_map, what, sig, evict=False):
     from BTrees import check as bcheck
     try:
         t._check()
@@ -73,10 +93,21 @@ def _accept(t, is_map, what, sig):
         raise Violation('%s: check.check() rejects a valid tree: %s: %s' % (what, type(e).__name__, e),
                         dict(sig, what='valid-rejected', by='check'))
     try:
-        return walker.walk(t, is_map)
+        w = walker.walk(t, is_map)
     except walker.WalkError as e:
         raise Violation('%s: the independent walker rejects a tree the harness built as valid: %s'
                         % (what, e), dict(sig, what='walker-rejects-valid'))
+    if evict:
+        conn = _evicted(t, is_map)
+        if conn is not None:
+            for name, f in (('_check', lambda: t._check()), ('check', lambda: bcheck.check(t))):
+                conn.minimize()
+                try:
+                    f()
+                except Exception as e:
+                    raise Violation('%s: stored and evicted, %s() rejects the valid tree: %s: %s'
+                                    % (what, name, type(e).__name__, e), dict(sig, what='valid-rejected', by=name, ghost=True))
+    return w
 
 
 def run_hist_case(case, ctx):
@@ -87,7 +118,7 @@ def run_hist_case(case, ctx):
             lv.step(op)
             if i % 3 == 2 or i == len(case['ops']) - 1:
                 _accept(lv.t, lv.is_map, 'after step %d %r of a history on %s%s(%s)'
-                        % (i, op, lv.fam, lv.kind, lv.impl), sig)
+                        % (i, op, lv.fam, lv.kind, lv.impl), sig, evict=(i == len(case['ops']) - 1))
         lv.observe_shape()
         return lv.max_height >= 2, ('accept:history', 'height:%d' % lv.max_height)
 
@@ -294,7 +325,7 @@ def run_spec_case(case, ctx):
     spec = case['spec']
     t, _ = treespec.build(fam, kind, impl, spec)
     sig = {'impl': impl, 'kind': kind}
-    w = _accept(t, is_map, 'valid shape %r as %s%s(%s)' % (spec, fam, kind, impl), sig)
+    w = _accept(t, is_map, 'valid shape %r as %s%s(%s)' % (spec, fam, kind, impl), sig, evict=True)
     height = w.height
     classes = {'accept:spec': 1, 'spec_height:%d' % min(height, 5): 1}
     n_eval = 1
@@ -348,6 +379,25 @@ def _judge(case, ctx, fam, kind, impl, spec, cor, classes, replaying=False):
         except Exception as e:
             other.append('%s:%s' % (name, type(e).__name__))
     cnt('%s@%s:%s' % (cor['c'], pos, '+'.join(caught) or 'MISSED'))
+    if caught:
+        # the same corrupted tree, stored and evicted: the checkers have to load the nodes they compare
+        conn = _evicted(t, is_map)
+        if conn is not None:
+            gcaught = []
+            for name, f in (('_check', lambda: t._check()), ('check', lambda: bcheck.check(t))):
+                conn.minimize()
+                try:
+                    f()
+                except AssertionError:
+                    gcaught.append(name)
+                except Exception:
+                    pass
+            cnt('evicted:%s' % ('+'.join(gcaught) or 'MISSED'))
+            if not gcaught:
+                ctx.mismatch('%s%s(%s): corruption %r of valid shape %r (-> %r) is detected (%s) while the nodes are in '
+                             'memory, but accepted by both checkers once the tree is stored and its nodes are evicted'
+                             % (fam, kind, impl, cor, spec, bad, '+'.join(caught)),
+                             {'impl': impl, 'kind': kind, 'corruption': cor['c'], 'pos': pos, 'ghost': True})
     if not caught:
         ctx.mismatch('%s%s(%s): corruption %r of valid shape %r (-> %r) is accepted by both _check() '
                      'and check.check()%s' % (fam, kind, impl, cor, spec, bad,
